@@ -606,7 +606,11 @@ func TestC11Server(t *testing.T) {
 				if c.Kind == wire.Quit {
 					c.Kind = wire.Noop
 				}
-				long := strings.Repeat("L", rapid.SampledFrom([]int{251, 252, 255, 256, 300, 1200, 65535}).Draw(t, "longKey"))
+				longLens := []int{251, 252, 255, 256, 300, 1200, 65535}
+				if !sc.Binary {
+					longLens = append(longLens, 65536, 65537, 70000) // only a text line can carry a key that no 16-bit length field describes
+				}
+				long := strings.Repeat("L", rapid.SampledFrom(longLens).Draw(t, "longKey"))
 				if len(c.Key) > 0 {
 					c.Key = long
 				}
